@@ -34,6 +34,9 @@ IterEqProofs.vos IterEqProofs.vok IterEqProofs.required_vos: IterEqProofs.v Base
 WorldProofs.vo WorldProofs.glob WorldProofs.v.beautified WorldProofs.required_vo: WorldProofs.v Base.vo Arena.vo ArenaProofs.vo Rodeo.vo RodeoInv.vo RodeoProofs.vo ThreadedInv.vo CloneSerdeProofs.vo ThreadedProofs.vo IterEqProofs.vo
 WorldProofs.vio: WorldProofs.v Base.vio Arena.vio ArenaProofs.vio Rodeo.vio RodeoInv.vio RodeoProofs.vio ThreadedInv.vio CloneSerdeProofs.vio ThreadedProofs.vio IterEqProofs.vio
 WorldProofs.vos WorldProofs.vok WorldProofs.required_vos: WorldProofs.v Base.vos Arena.vos ArenaProofs.vos Rodeo.vos RodeoInv.vos RodeoProofs.vos ThreadedInv.vos CloneSerdeProofs.vos ThreadedProofs.vos IterEqProofs.vos
+HashIndep.vo HashIndep.glob HashIndep.v.beautified HashIndep.required_vo: HashIndep.v Base.vo Arena.vo ArenaProofs.vo Rodeo.vo RodeoInv.vo RodeoProofs.vo ThreadedInv.vo CloneSerdeProofs.vo ThreadedProofs.vo IterEqProofs.vo WorldProofs.vo
+HashIndep.vio: HashIndep.v Base.vio Arena.vio ArenaProofs.vio Rodeo.vio RodeoInv.vio RodeoProofs.vio ThreadedInv.vio CloneSerdeProofs.vio ThreadedProofs.vio IterEqProofs.vio WorldProofs.vio
+HashIndep.vos HashIndep.vok HashIndep.required_vos: HashIndep.v Base.vos Arena.vos ArenaProofs.vos Rodeo.vos RodeoInv.vos RodeoProofs.vos ThreadedInv.vos CloneSerdeProofs.vos ThreadedProofs.vos IterEqProofs.vos WorldProofs.vos
 Conc.vo Conc.glob Conc.v.beautified Conc.required_vo: Conc.v Arena.vo
 Conc.vio: Conc.v Arena.vio
 Conc.vos Conc.vok Conc.required_vos: Conc.v Arena.vos
@@ -49,6 +52,9 @@ ConcInternProofs.vos ConcInternProofs.vok ConcInternProofs.required_vos: ConcInt
 ConcTheorems.vo ConcTheorems.glob ConcTheorems.v.beautified ConcTheorems.required_vo: ConcTheorems.v Base.vo Arena.vo ArenaProofs.vo Conc.vo ConcInv.vo ConcArenaProofs.vo ConcInternProofs.vo
 ConcTheorems.vio: ConcTheorems.v Base.vio Arena.vio ArenaProofs.vio Conc.vio ConcInv.vio ConcArenaProofs.vio ConcInternProofs.vio
 ConcTheorems.vos ConcTheorems.vok ConcTheorems.required_vos: ConcTheorems.v Base.vos Arena.vos ArenaProofs.vos Conc.vos ConcInv.vos ConcArenaProofs.vos ConcInternProofs.vos
+Bridge.vo Bridge.glob Bridge.v.beautified Bridge.required_vo: Bridge.v Base.vo Arena.vo ArenaProofs.vo Rodeo.vo RodeoInv.vo RodeoProofs.vo ThreadedInv.vo CloneSerdeProofs.vo ThreadedProofs.vo IterEqProofs.vo WorldProofs.vo Conc.vo ConcInv.vo ConcArenaProofs.vo ConcInternProofs.vo ConcTheorems.vo
+Bridge.vio: Bridge.v Base.vio Arena.vio ArenaProofs.vio Rodeo.vio RodeoInv.vio RodeoProofs.vio ThreadedInv.vio CloneSerdeProofs.vio ThreadedProofs.vio IterEqProofs.vio WorldProofs.vio Conc.vio ConcInv.vio ConcArenaProofs.vio ConcInternProofs.vio ConcTheorems.vio
+Bridge.vos Bridge.vok Bridge.required_vos: Bridge.v Base.vos Arena.vos ArenaProofs.vos Rodeo.vos RodeoInv.vos RodeoProofs.vos ThreadedInv.vos CloneSerdeProofs.vos ThreadedProofs.vos IterEqProofs.vos WorldProofs.vos Conc.vos ConcInv.vos ConcArenaProofs.vos ConcInternProofs.vos ConcTheorems.vos
 Facts.vo Facts.glob Facts.v.beautified Facts.required_vo: Facts.v 
 Facts.vio: Facts.v 
 Facts.vos Facts.vok Facts.required_vos: Facts.v 
@@ -67,6 +73,9 @@ Props/C01.vos Props/C01.vok Props/C01.required_vos: Props/C01.v Base.vos Arena.v
 Props/C02.vo Props/C02.glob Props/C02.v.beautified Props/C02.required_vo: Props/C02.v Base.vo Arena.vo ArenaProofs.vo Rodeo.vo RodeoInv.vo RodeoProofs.vo ThreadedInv.vo CloneSerdeProofs.vo ThreadedProofs.vo IterEqProofs.vo WorldProofs.vo
 Props/C02.vio: Props/C02.v Base.vio Arena.vio ArenaProofs.vio Rodeo.vio RodeoInv.vio RodeoProofs.vio ThreadedInv.vio CloneSerdeProofs.vio ThreadedProofs.vio IterEqProofs.vio WorldProofs.vio
 Props/C02.vos Props/C02.vok Props/C02.required_vos: Props/C02.v Base.vos Arena.vos ArenaProofs.vos Rodeo.vos RodeoInv.vos RodeoProofs.vos ThreadedInv.vos CloneSerdeProofs.vos ThreadedProofs.vos IterEqProofs.vos WorldProofs.vos
+Props/C02H.vo Props/C02H.glob Props/C02H.v.beautified Props/C02H.required_vo: Props/C02H.v Base.vo Arena.vo ArenaProofs.vo Rodeo.vo RodeoInv.vo RodeoProofs.vo ThreadedInv.vo CloneSerdeProofs.vo ThreadedProofs.vo IterEqProofs.vo WorldProofs.vo HashIndep.vo
+Props/C02H.vio: Props/C02H.v Base.vio Arena.vio ArenaProofs.vio Rodeo.vio RodeoInv.vio RodeoProofs.vio ThreadedInv.vio CloneSerdeProofs.vio ThreadedProofs.vio IterEqProofs.vio WorldProofs.vio HashIndep.vio
+Props/C02H.vos Props/C02H.vok Props/C02H.required_vos: Props/C02H.v Base.vos Arena.vos ArenaProofs.vos Rodeo.vos RodeoInv.vos RodeoProofs.vos ThreadedInv.vos CloneSerdeProofs.vos ThreadedProofs.vos IterEqProofs.vos WorldProofs.vos HashIndep.vos
 Props/C03.vo Props/C03.glob Props/C03.v.beautified Props/C03.required_vo: Props/C03.v Base.vo Arena.vo Conc.vo ConcInv.vo ConcArenaProofs.vo ConcInternProofs.vo ConcTheorems.vo
 Props/C03.vio: Props/C03.v Base.vio Arena.vio Conc.vio ConcInv.vio ConcArenaProofs.vio ConcInternProofs.vio ConcTheorems.vio
 Props/C03.vos Props/C03.vok Props/C03.required_vos: Props/C03.v Base.vos Arena.vos Conc.vos ConcInv.vos ConcArenaProofs.vos ConcInternProofs.vos ConcTheorems.vos
@@ -79,6 +88,9 @@ Props/C05.vos Props/C05.vok Props/C05.required_vos: Props/C05.v Base.vos Arena.v
 Props/C06.vo Props/C06.glob Props/C06.v.beautified Props/C06.required_vo: Props/C06.v Base.vo Arena.vo ArenaProofs.vo Rodeo.vo RodeoInv.vo RodeoProofs.vo ThreadedInv.vo CloneSerdeProofs.vo ThreadedProofs.vo IterEqProofs.vo WorldProofs.vo
 Props/C06.vio: Props/C06.v Base.vio Arena.vio ArenaProofs.vio Rodeo.vio RodeoInv.vio RodeoProofs.vio ThreadedInv.vio CloneSerdeProofs.vio ThreadedProofs.vio IterEqProofs.vio WorldProofs.vio
 Props/C06.vos Props/C06.vok Props/C06.required_vos: Props/C06.v Base.vos Arena.vos ArenaProofs.vos Rodeo.vos RodeoInv.vos RodeoProofs.vos ThreadedInv.vos CloneSerdeProofs.vos ThreadedProofs.vos IterEqProofs.vos WorldProofs.vos
+Props/C06B.vo Props/C06B.glob Props/C06B.v.beautified Props/C06B.required_vo: Props/C06B.v Base.vo Arena.vo ArenaProofs.vo Rodeo.vo RodeoInv.vo ThreadedInv.vo IterEqProofs.vo WorldProofs.vo Conc.vo ConcInv.vo ConcArenaProofs.vo ConcInternProofs.vo Bridge.vo
+Props/C06B.vio: Props/C06B.v Base.vio Arena.vio ArenaProofs.vio Rodeo.vio RodeoInv.vio ThreadedInv.vio IterEqProofs.vio WorldProofs.vio Conc.vio ConcInv.vio ConcArenaProofs.vio ConcInternProofs.vio Bridge.vio
+Props/C06B.vos Props/C06B.vok Props/C06B.required_vos: Props/C06B.v Base.vos Arena.vos ArenaProofs.vos Rodeo.vos RodeoInv.vos ThreadedInv.vos IterEqProofs.vos WorldProofs.vos Conc.vos ConcInv.vos ConcArenaProofs.vos ConcInternProofs.vos Bridge.vos
 Props/C07.vo Props/C07.glob Props/C07.v.beautified Props/C07.required_vo: Props/C07.v Base.vo Arena.vo ArenaProofs.vo Rodeo.vo RodeoInv.vo RodeoProofs.vo ThreadedInv.vo CloneSerdeProofs.vo ThreadedProofs.vo IterEqProofs.vo WorldProofs.vo
 Props/C07.vio: Props/C07.v Base.vio Arena.vio ArenaProofs.vio Rodeo.vio RodeoInv.vio RodeoProofs.vio ThreadedInv.vio CloneSerdeProofs.vio ThreadedProofs.vio IterEqProofs.vio WorldProofs.vio
 Props/C07.vos Props/C07.vok Props/C07.required_vos: Props/C07.v Base.vos Arena.vos ArenaProofs.vos Rodeo.vos RodeoInv.vos RodeoProofs.vos ThreadedInv.vos CloneSerdeProofs.vos ThreadedProofs.vos IterEqProofs.vos WorldProofs.vos
